@@ -17,13 +17,13 @@ from vlib.verdict import Case
 
 PROPERTY = 'C10'
 MANIFEST = {
- 'level_text': 'Lean 4 simulation proof, kernel-checked: a reference IRC server Srv (users, channels, members with op/halfop/voice flags, topic, modes, ban lists, hostmasks; multi-prefix, userhost-in-names, extended-join, chghost, WHOX; names compared under rfc1459 case rules) and a model of irclib.IrcState / ChannelState / the nick+prefix bookkeeping of Irc.feedMsg are coupled by an invariant (own nick; set of joined channels; per channel users, ops, halfops, voices, topic, modes, bans; hostmask of every visible nick; own prefix) that is proved to hold after EVERY finite run of server actions from "just registered" (theorem view_refines_partial, by induction with one lemma per action: JOIN incl. the bot\'s own JOIN with the 332/353/366/354|352/315/324/329/367/368 burst, PART, KICK, QUIT, NICK incl. case-only and the bot\'s own, MODE, TOPIC, NAMES, WHO, CHGHOST, reconnect; multi-target JOIN/PART/KICK); corollaries: own PART / KICK / reconnect remove the channel from the view. The mode-argument tables, the rfc1459 case table, the nick setters and the sigil / mode-letter literals are re-extracted from /repo on every run and the proofs rest on table lemmas about them. The bot model is tied to the real irclib by a differential run that compares the full state dump after every single message of generated histories, and the property statement is evaluated on the real Irc against an independent Python reference server (which is also compared with the Lean Srv, message by message).',
- 'level_note': 'Trusted: Lean kernel; axioms propext/Classical.choice/Quot.sound only; harness/extractors/chanstate.py; harness/c10.py (generators, canonical dumps, the Python reference server used as oracle). Hypotheses of the theorem: valid configuration, multi-prefix negotiated (without it a NAMES reply shows one status per member; the check then only requires halfops/voices to be a subset), and no mode argument that int() rewrites (known finding C10-mode-arg-int, counter-example proved in Lean). Modelled and proved: IrcState.addMsg dispatch and doJoin/doPart/doKick/doQuit/doNick/doMode/doTopic/do353/do352/do354/do324/do329/do332/do367/doChghost, ChannelState.addUser/replaceUser/removeUser/doMode, separateModes, isUserHostmask/splitHostmask, isChannel, Irc.feedMsg nick/prefix/nick-setter logic, Irc.doNick, Irc.doChghost, Irc.reset. The server is assumed to use rfc1459 casemapping and the CHANMODES classes of the bot\'s tables (b,e,q,I / k / l / flags) and to send CHGHOST only when the capability was negotiated. Not modelled: ISUPPORT (005) driven chantypes / prefix maps, batches, int() on non-ASCII digits, plugins / callbacks, the WHO / MODE requests the bot queues on joining (the server sends the replies unprompted, as one burst), irc.server.',
+ 'level_text': 'Lean 4 simulation proof, kernel-checked. A reference IRC server Srv (users, channels, members with op/halfop/voice flags, topic, modes, ban lists, hostmasks; multi-prefix, userhost-in-names, extended-join, chghost, WHOX, batch, RPL_ISUPPORT; rfc1459 case rules) and a model of irclib.IrcState / ChannelState / Irc.feedMsg (nick, prefix, nick setters, RPL_ISUPPORT, the WHO / MODE / MODE +b queries Irc.doJoin sends, IRCv3 batches) are coupled by an invariant proved to hold after EVERY finite run from "just registered" (theorems view_refines_partial and, with batches, view_refines_batched_partial; induction with one simulation lemma per action: JOIN incl. the bot\'s own with topic+NAMES, PART, KICK, QUIT, NICK incl. case-only and the bot\'s own, MODE, TOPIC, PRIVMSG, NAMES, CHGHOST announced or silent, ISUPPORT, reconnect, the replies to the bot\'s queries served in order or sent unsolicited/late, BATCH open/close; multi-target JOIN/PART/KICK). The coupling: own nick and prefix; set of joined channels; per channel users, ops, topic exactly; halfops/voices exactly with multi-prefix and never wrong without it; modes a sub-map and bans a subset of the server\'s until the 324 / ban-list reply arrives, exact afterwards; the hostmask of every user whose current hostmask the server has shown to the bot. No assumption on negotiated capabilities. Corollaries: own PART / KICK / reconnect remove the channel; the bot sends exactly MODE, MODE +b, WHO on its own JOIN. Mode-argument tables, rfc1459 table, nick setters, sigil / mode-letter literals and isChannel defaults are re-extracted from /repo on every run and the proofs rest on table lemmas. The bot model is tied to the real irclib by a differential run comparing the full state dump (and what the bot sends) after every single message, and the property statement is evaluated on the real Irc against an independent Python reference server (itself compared with the Lean Srv message by message).',
+ 'level_note': 'Trusted: Lean kernel; axioms propext/Classical.choice/Quot.sound only; harness/extractors/chanstate.py; harness/c10.py (generators, canonical dumps, the Python reference server used as oracle). Hypothesis of the theorems: valid configuration (CHANTYPES contains # and &, CHANNELLEN >= 50) and no mode argument that int() rewrites (known finding C10-mode-arg-int, counter-example proved in Lean). Stated, not proved in Lean (checked on every generated history for the Python server, which is compared with the Lean one): once all queries of the bot are answered every channel of the bot is synced and, with chghost negotiated, every visible user has been shown. Modelled and proved: IrcState.addMsg (hostmask bookkeeping, batch tag assertion, dispatch) and doJoin/doPart/doKick/doQuit/doNick/doMode/doTopic/do353/do352/do354/do324/do329/do332/do367/doChghost/do005/doBatch, ChannelState.addUser/replaceUser/removeUser/doMode, separateModes, isUserHostmask/splitHostmask, isChannel with CHANTYPES/CHANNELLEN from 005, Irc.feedMsg nick/prefix/nick-setter logic, Irc.doNick, Irc.doChghost, Irc.doJoin (queued queries, in takeMsg order), Irc.reset. Hard-coded in the code and therefore assumed of the server: rfc1459 casemapping, PREFIX (ohv)@%+, CHANMODES classes b,e,q,I / k / l / flags (proved counter-examples: casemapping_hardcoded, prefix_hardcoded, param_mode_mispaired; known finding C10-param-modes-not-from-isupport). Not modelled: other ISUPPORT tokens, the one-hour expiry of state.batches, int() on non-ASCII digits, plugins / callbacks, irc.server, the bot\'s own host change without chghost.',
  'technique': 'Lean 4 proof (simulation with a coupling invariant, induction over runs) + table extraction + differential correspondence',
  'design_ref': 'DESIGN.md §6 C10',
 }
 THEOREMS = ['C10.view_refines_partial', 'C10.view_refines_batched_partial', 'C10.step_plain', 'C10.view_step', 'C10.wf_step', 'C10.coupled_step',
-            'C10.view_channels', 'C10.view_channel', 'C10.view_channel_full', 'C10.view_channel_gone',
+            'C10.view_channels', 'C10.view_channel', 'C10.view_channel_full', 'C10.view_channel_gone', 'C10.bot_queries_on_join',
             'C10.own_part_removes', 'C10.own_kick_removes', 'C10.reconnect_clears',
             'C10.view_refines_fails_intarg', 'C10.separateModes_ignores_isupport', 'C10.param_mode_mispaired',
             'C10.recv_isupportEv', 'C10.casemapping_hardcoded', 'C10.prefix_hardcoded',
@@ -34,10 +34,12 @@ TRUSTED = ['Lean 4.33.0 kernel; axioms ⊆ {propext, Classical.choice, Quot.soun
            'harness/extractors/chanstate.py (mode-argument tables, rfc1459 table, nick setters, sigil / mode-letter literals → Gen/ChanState.lean)',
            'harness/c10.py: generators, canonical state dumps, hex line protocol, the Python reference server PySrv (oracle)',
            'the reference server Srv is the specification of "conformant server": rfc1459 casemapping, CHANMODES classes b,e,q,I / k / l / flags, PREFIX (ohv)@%+']
-RULE = ('seeded histories of reference-server actions over 3-6 users and 2-4 channels with case-variant names '
+RULE = ('seeded histories of reference-server actions over 3-9 users and 2-6 channels with case-variant names '
         '(valid stream: mostly enabled actions incl. multi-target JOIN/PART/KICK, sigil stacks, mode strings mixing +/- with and '
-        'without parameters, case-only and own nick changes, CHGHOST, reconnect; near-miss: unknown/invalid subjects the server must ignore; '
-        'hostile: raw messages of the modelled commands with wrong arity / odd arguments fed to bot and bot model). '
+        'without parameters, case-only and own nick changes, CHGHOST announced or silent, PRIVMSG, ISUPPORT, batches, reconnect, the '
+        'bot\'s queries served in order or replies sent unsolicited / late; near-miss: unknown/invalid subjects the server must ignore; '
+        'nomp: without multi-prefix; findings: the two known-finding classes; hostile: raw messages of the modelled commands incl. 005 and '
+        'BATCH with wrong arity / odd arguments / stray batch tags fed to bot and bot model). '
         'A case is one history; it is non-trivial when at least one message reached the bot; distinct = distinct action list.')
 
 # ------------------------------------------------------------------------------------------
